@@ -102,3 +102,20 @@ Theorem purge_once_per_relation_refuted :
   o_nodes (delete_many ns [1]) = [mkEl 3 None [30] [mkRef 7 true []] None].
 Proof. exact purge_once_refuted. Qed.
 Print Assumptions purge_once_per_relation_refuted.
+
+(* 6. all-or-nothing for ONE call with several targets (`del obj.attr`): a refusal anywhere leaves everything in place; deleting
+      the same targets call by call (`del lst[a:b]`, known finding partial-multi-delete) does not have this property *)
+Theorem delete_many_all_or_nothing : forall refuses ns ts,
+  match delete_guarded_many refuses ns ts with
+  | None => exists n, In n ns /\ refuses n = true /\ below ns ts (e_h n) = false
+  | Some o => o = delete_many ns ts
+  end.
+Proof. exact guarded_many_all_or_nothing. Qed.
+Print Assumptions delete_many_all_or_nothing.
+Theorem delete_call_by_call_refuted :
+  let ns := [mkEl 1 None [10] [] None; mkEl 2 None [20] [] None; mkEl 3 None [30] [mkRef 7 true [20]] None] in
+  let refuses := fun n => e_h n =? 3 in
+  delete_guarded_many refuses ns [1; 2] = None /\
+  delete_seq refuses ns [1; 2] = ([mkEl 2 None [20] [] None; mkEl 3 None [30] [mkRef 7 true [20]] None], true).
+Proof. exact sequential_delete_refuted. Qed.
+Print Assumptions delete_call_by_call_refuted.
